@@ -161,10 +161,10 @@ End Agree.
 
 (* ---- string-literal arguments ---- *)
 (* inside a quoted argument everything up to the matching quote is copied: the other kind of quote, commas,
-   parentheses and pipes belong to the literal *)
+   parentheses and pipes belong to the literal; the quotes themselves stay on the argument *)
 Lemma parse_args_quoted_body : forall body qc rest cur,
   ~ In qc body ->
-  parse_args_go (body ++ qc :: rest) (Some qc) cur = parse_args_go rest None (rev body ++ cur).
+  parse_args_go (body ++ qc :: rest) (Some qc) cur = parse_args_go rest None (qc :: rev body ++ cur).
 Proof.
   induction body as [|c body IH]; intros qc rest cur Hn; cbn [app parse_args_go rev].
   - now rewrite beq_refl.
@@ -174,19 +174,40 @@ Proof.
 Qed.
 Theorem parse_args_string_literal : forall qc body rest cur,
   (qc = x22 \/ qc = x27) -> ~ In qc body ->
-  parse_args_go (qc :: body ++ qc :: rest) None cur = parse_args_go rest None (rev body ++ cur).
+  parse_args_go (qc :: body ++ qc :: rest) None cur = parse_args_go rest None (qc :: rev body ++ qc :: cur).
 Proof.
   intros qc body rest cur Hq Hn. cbn [parse_args_go].
   assert (E : beq qc x22 || beq qc x27 = true) by (destruct Hq as [-> | ->]; reflexivity).
   rewrite E. now apply parse_args_quoted_body.
 Qed.
-(* a single quoted argument is the literal itself, whatever else it contains *)
-Corollary parse_args_one_literal : forall qc body,
-  (qc = x22 \/ qc = x27) -> ~ In qc body -> body <> [] ->
-  parse_args_go (qc :: body ++ [qc]) None [] = [trim body].
+Lemma trim_quoted qc body : (qc = x22 \/ qc = x27) -> trim (qc :: body ++ [qc]) = qc :: body ++ [qc].
 Proof.
-  intros qc body Hq Hn Hne. rewrite (parse_args_string_literal qc body [] [] Hq Hn). cbn [parse_args_go].
-  rewrite app_nil_r. destruct (rev body) eqn:E.
-  - exfalso. apply Hne. rewrite <- (rev_involutive body), E. reflexivity.
-  - now rewrite <- E, rev_involutive.
+  intro Hq. assert (Hw : is_ws qc = false) by (destruct Hq as [-> | ->]; reflexivity).
+  unfold trim. cbn [drop_ws]. rewrite Hw.
+  change (qc :: body ++ [qc]) with ((qc :: body) ++ [qc]). rewrite rev_app_distr. cbn [rev app drop_ws]. rewrite Hw.
+  change (qc :: rev body ++ [qc]) with (rev [qc] ++ rev (qc :: body)).
+  rewrite <- rev_app_distr, rev_involutive. reflexivity.
 Qed.
+(* a single quoted argument is the literal with its quotes, whatever else it contains *)
+Corollary parse_args_one_literal : forall qc body,
+  (qc = x22 \/ qc = x27) -> ~ In qc body ->
+  parse_args_go (qc :: body ++ [qc]) None [] = [qc :: body ++ [qc]].
+Proof.
+  intros qc body Hq Hn. rewrite (parse_args_string_literal qc body [] [] Hq Hn). cbn [parse_args_go].
+  replace (rev (qc :: rev body ++ [qc])) with (qc :: body ++ [qc]).
+  - now rewrite trim_quoted.
+  - change (qc :: rev body ++ [qc]) with ((qc :: rev body) ++ [qc]). rewrite rev_app_distr. cbn [rev app].
+    now rewrite rev_involutive.
+Qed.
+(* ... and resolveArgument gives exactly the text between the quotes as a string: no number, boolean or variable
+   is read out of it, and blanks inside the quotes stay *)
+Lemma resolve_quoted s qc body : (qc = x22 \/ qc = x27) -> resolve_argument s (qc :: body ++ [qc]) = VStr body.
+Proof.
+  intro Hq. unfold resolve_argument. rewrite (trim_quoted qc body Hq).
+  rewrite rev_app_distr. cbn [rev app].
+  assert (E : (beq qc x22 && beq qc x22) || (beq qc x27 && beq qc x27) = true) by (destruct Hq as [-> | ->]; reflexivity).
+  rewrite E. now rewrite rev_involutive.
+Qed.
+Theorem string_literal_value s qc body : (qc = x22 \/ qc = x27) -> ~ In qc body ->
+  map (resolve_argument s) (parse_args_go (qc :: body ++ [qc]) None []) = [VStr body].
+Proof. intros Hq Hn. rewrite (parse_args_one_literal qc body Hq Hn). cbn [map]. now rewrite resolve_quoted. Qed.
